@@ -936,19 +936,27 @@ def class_call_hook(cls, extra=None, model=None):
                         return val
                     except Unsupported:
                         pass
-            if len(parts) == 2 and parts[0] in ('cls', 'self') and hasattr(cls, 'resolve'):
-                # a method of the class under evaluation used as a value (handed to a primitive as converter): a callable that
-                # evaluates the method's own statements on its positional arguments
-                m = cls.resolve(parts[1])
+            owner_of_method = None
+            if len(parts) == 2 and hasattr(cls, 'resolve') and (parts[0] in ('cls', 'self') or parts[0] == getattr(cls, 'name', None)):
+                owner_of_method = cls
+            elif len(parts) == 2 and model is not None:
+                r = model.resolve_name(module, parts[0])
+                if r is not None and hasattr(r, 'resolve') and hasattr(r, 'mro') and not getattr(r, 'external', False) and \
+                        not getattr(r, 'enum_members', None):
+                    owner_of_method = r         # ``OtherClass.method`` named in a table of handlers
+            if owner_of_method is not None:
+                # a method of the class under evaluation (or of a class it names) used as a value (handed to a primitive as converter,
+                # kept in a dispatch table): a callable that evaluates the method's own statements on its positional arguments
+                m = owner_of_method.resolve(parts[1])
                 if m is not None and isinstance(getattr(m, 'node', None), ast.FunctionDef) and not getattr(m.module, 'external', False):
-                    def method_value(*args, _m=m):
+                    def method_value(*args, _m=m, _k=owner_of_method):
                         params = [a.arg for a in _m.node.args.args]
                         env = {}
                         if params and params[0] in ('self', 'cls'):
-                            env[params[0]] = parts[0]
+                            env[params[0]] = parts[0] if parts[0] in ('cls', 'self') else 'cls'
                             params = params[1:]
                         env.update(zip(params, args))
-                        return Evaluator(env, make(cls, _m.module), name_hook_for(_m.module, outer)).function(_m.node)
+                        return Evaluator(env, make(_k, _m.module), name_hook_for(_m.module, outer)).function(_m.node)
                     method_value._miniexec = True
                     return method_value
             if outer is not None:
